@@ -199,8 +199,8 @@ Fixpoint panic_from (i : N) (h : list step_rec) : option N :=
 Definition c06_panic_oracle (h : list step_rec) : option N := panic_from 0 h.
 
 (* the model's own trace for a list of stimuli, in step_rec form *)
-Fixpoint u_trace (u : ustate) (h : list stim) : list step_rec :=
+Fixpoint u_trace (fixed : bool) (u : ustate) (h : list stim) : list step_rec :=
   match h with
   | [] => []
-  | st :: r => let '(u', os) := u_step u st in (st, os, u_blocked u') :: u_trace u' r
+  | st :: r => let '(u', os) := u_step fixed u st in (st, os, u_blocked u') :: u_trace fixed u' r
   end.
